@@ -457,6 +457,50 @@ theorem C10_cookware_merge_conserves (g other : List (Value Rat)) :
   exact ⟨r, hr, h _ (vEnd_additive false), h _ (vEnd_additive true),
     valueTexts_perm (fun t => h _ (vText_additive t))⟩
 
+/-- **From recipes to the aisles, in one statement.**  A list built from any sequence of recipes (reference
+    indices in range) and split by ANY aisle configuration: no panic, and what is found under
+    (category, common name) is exactly — per class total, both ends, and texts — what the recipes' own
+    tables say: the quantities of every listed definition whose display name the aisle file sends there,
+    with those of its references (`selRecipeQuantities`); what is found under a name of `other` is the
+    same for the listed definitions displayed under that name which the aisle file does not know.  The
+    intermediate list does not occur on the right-hand side. -/
+theorem C10_shopping_list_conserves {c : Converter Rat} (hc : c.Sound) (ord : MapOrder Rat)
+    (hord : ord.IsPerm) (aisle : Aisle.Conf) (rs : List (ScaledRecipe Rat))
+    (hr : ∀ r ∈ rs, RefsInRange r.ingredients) (cls : QClass) (hlin : LinearClass c cls) :
+    ∃ l, addRecipes ord c [] rs = some l ∧
+      (∀ cat common, Holds c cls (categoryQuantities ord (categorize ord aisle l) cat common)
+        (rs.flatMap (selRecipeQuantities (fun n => decide (sentTo aisle n cat common))))) ∧
+      (∀ name, Holds c cls (entryQuantities ord (categorize ord aisle l).other name)
+        (rs.flatMap (selRecipeQuantities (fun n => decide (Aisle.lookup aisle n = none ∧ n = name))))) := by
+  obtain ⟨l, hl⟩ := addRecipes_total (c := c) ord rs [] hr
+  have hnd := C10_list_names_distinct ord rs l hl
+  obtain ⟨h1, h2⟩ := C10_categorize_conserves hc ord hord aisle l hnd cls hlin
+  refine ⟨l, hl, fun cat common => (h1 cat common).trans ?_, fun name => (h2 name).trans ?_⟩
+  · apply holds_of_weights hc hlin
+    intro w hw
+    have key := audit_selW_addRecipes hw.additive hw.fitInvariant
+      (fun n => decide (sentTo aisle n cat common)) ord hord rs [] l hl
+    have e1 : sumBy (fun e : Str × GroupedQuantity Rat =>
+        if sentTo aisle e.1 cat common then GroupedQuantity.gsum w e.2 else 0) l =
+        selW w (fun n => decide (sentTo aisle n cat common)) l := by
+      unfold selW; apply sumBy_congr; intro e _; simp
+    rw [sumBy_sentQuantities w ord hord, e1, key, sumBy_flatMap]
+    simp only [selW, sumBy_nil]
+    rw [sumBy_congr rs (fun r _ => (audit_sumBy_selRecipeQuantities w _ r).symm)]
+    grind
+  · apply holds_of_weights hc hlin
+    intro w hw
+    have key := audit_selW_addRecipes hw.additive hw.fitInvariant
+      (fun n => decide (Aisle.lookup aisle n = none ∧ n = name)) ord hord rs [] l hl
+    have e1 : sumBy (fun e : Str × GroupedQuantity Rat =>
+        if Aisle.lookup aisle e.1 = none ∧ e.1 = name then GroupedQuantity.gsum w e.2 else 0) l =
+        selW w (fun n => decide (Aisle.lookup aisle n = none ∧ n = name)) l := by
+      unfold selW; apply sumBy_congr; intro e _; simp
+    rw [sumBy_unsentQuantities w ord hord, e1, key, sumBy_flatMap]
+    simp only [selW, sumBy_nil]
+    rw [sumBy_congr rs (fun r _ => (audit_sumBy_selRecipeQuantities w _ r).symm)]
+    grind
+
 /-! ## every recipe the parser returns (link to C06, Lemmas/ParsedScaled.lean)
 
   `ParsedScaled r`: `r` is what `parse` returns for SOME environment and input — valid or alongside any
@@ -504,6 +548,18 @@ theorem C10_parsed_list_conserves {c : Converter Rat} (hc : c.Sound) (ord : MapO
       ∀ name, Holds c cls (entryQuantities ord m' name)
         (entryQuantities ord m name ++ rs.flatMap (recipeQuantities name)) :=
   C10_list_conserves hc ord hord rs (fun r h => (hr r h).refsConsistent.inRange) m cls hlin
+
+/-- `C10_shopping_list_conserves` for every sequence of parsed and scaled recipes and every aisle
+    configuration (in particular every one `aisle::parse` returns) -/
+theorem C10_parsed_shopping_list_conserves {c : Converter Rat} (hc : c.Sound) (ord : MapOrder Rat)
+    (hord : ord.IsPerm) (aisle : Aisle.Conf) (rs : List (ScaledRecipe Rat))
+    (hr : ∀ r ∈ rs, ParsedScaled r) (cls : QClass) (hlin : LinearClass c cls) :
+    ∃ l, addRecipes ord c [] rs = some l ∧
+      (∀ cat common, Holds c cls (categoryQuantities ord (categorize ord aisle l) cat common)
+        (rs.flatMap (selRecipeQuantities (fun n => decide (sentTo aisle n cat common))))) ∧
+      (∀ name, Holds c cls (entryQuantities ord (categorize ord aisle l).other name)
+        (rs.flatMap (selRecipeQuantities (fun n => decide (Aisle.lookup aisle n = none ∧ n = name))))) :=
+  C10_shopping_list_conserves hc ord hord aisle rs (fun r h => (hr r h).refsConsistent.inRange) cls hlin
 
 /-! ## witnesses and non-vacuity -/
 
